@@ -26,6 +26,7 @@ OPS = {
     "util": ["util.py"], "vocab": ["_construct_dictionary", "__init__", "get_velocity_bins"],
     "tok_roundtrip": ["notelike_tokenisation.py", "bin_velocity", "set_channel", "merge", "get_interleaved_message_pairings"],
     "tok_stateful": ["tokenise", "sequences_split_bars", "to_sequence", "concatenate"],
+    "concat_repeat": ["concatenate", "normalise_relative", "RelativeSequence.pad", "RelativeSequence.split", "set_channel", "message.py"],
     "scale_down": ["RelativeSequence.scale", "Sequence.scale", "sequences_split_bars", "bar.py", "RelativeSequence.split", "normalise_relative"],
     "tok_stream": ["detokenise", "get_info", "_split_token"], "history": ["sequence.py", "relative_sequence.py", "absolute_sequence.py", "bar.py", "message.py", "abstract_sequence.py"],
     "midi_events": ["to_midi_track", "to_mido_track", "parse_internal_message"],
